@@ -545,7 +545,7 @@ def run(chk, replay):
         scenarios += r.emitted
     if not scenarios:
         raise core.MachineryError("TLC emitted no behaviours")
-    cap = 900 if chk.tier == "quick" else 12000
+    cap = 900 if chk.tier == "quick" else 5000
     chosen = util.select(scenarios, cap, chk.rng)
     chk.exhaustive = len(chosen) == len(scenarios)
     for i, sc in enumerate(chosen):
